@@ -87,23 +87,30 @@ fn cells() -> Vec<Cell> {
     send("ReportState", RefMsg::Report(3, S_LOAD_PROG), false);
     send("Unknown", RefMsg::Unknown { addr: 3, ty: 0x42, data: vec![1] }, false);
     send("Unknown(data-chunk-like type 0x10)", RefMsg::Unknown { addr: 16, ty: 0x10, data: vec![0; 16] }, false);
-    for a in [3u16, 4] {
-        for s in 0..N_STATES {
-            let paced = s == S_LOAD_PROG || s == S_SHOW_PROG;
-            v.push(Cell {
-                name: format!("recv/Report:{}@{}", st_name(s), if a == 3 { "own" } else { "foreign" }),
-                m1: RefMsg::Query(3),
-                reply: RefMsg::Report(a, s),
-                send_paced: false,
-                recv_paced: paced,
-            });
-        }
-    }
+    // receive side: EVERY request kind that gets a reply x EVERY reply kind (the pacing depends on the reply only)
+    let mut requests: Vec<(String, RefMsg)> = vec![("Hello".into(), RefMsg::Hello(3)), ("Query".into(), RefMsg::Query(3))];
     for o in 0..N_OPS {
-        v.push(Cell { name: format!("recv/Ack:{}", op_name(o)), m1: RefMsg::Request(3, o), reply: RefMsg::Ack(3, o), send_paced: false, recv_paced: false });
+        requests.push((format!("Request:{}", op_name(o)), RefMsg::Request(3, o)));
     }
-    v.push(Cell { name: "recv/UnknownFrame".into(), m1: RefMsg::Hello(3), reply: RefMsg::Unknown { addr: 3, ty: 0x42, data: vec![0x13] }, send_paced: false, recv_paced: false });
-    v.push(Cell { name: "recv/DataFrame".into(), m1: RefMsg::Hello(3), reply: RefMsg::Data { offset: 0, data: vec![0x13; 16] }, send_paced: false, recv_paced: false });
+    for (rname, req) in &requests {
+        for a in [3u16, 4] {
+            for s in 0..N_STATES {
+                let paced = s == S_LOAD_PROG || s == S_SHOW_PROG;
+                v.push(Cell {
+                    name: format!("recv/{}<-Report:{}@{}", rname, st_name(s), if a == 3 { "own" } else { "foreign" }),
+                    m1: req.clone(),
+                    reply: RefMsg::Report(a, s),
+                    send_paced: false,
+                    recv_paced: paced,
+                });
+            }
+        }
+        for o in 0..N_OPS {
+            v.push(Cell { name: format!("recv/{}<-Ack:{}", rname, op_name(o)), m1: req.clone(), reply: RefMsg::Ack(3, o), send_paced: false, recv_paced: false });
+        }
+        v.push(Cell { name: format!("recv/{}<-UnknownFrame", rname), m1: req.clone(), reply: RefMsg::Unknown { addr: 3, ty: 0x42, data: vec![0x13] }, send_paced: false, recv_paced: false });
+        v.push(Cell { name: format!("recv/{}<-DataFrame", rname), m1: req.clone(), reply: RefMsg::Data { offset: 0, data: vec![0x13; 16] }, send_paced: false, recv_paced: false });
+    }
     v
 }
 
@@ -216,14 +223,14 @@ pub fn run(ctx: &Ctx) -> Outcome {
     let n_send_unpaced = all.iter().filter(|c| !c.send_paced).count() as u64;
     let floors = vec![
         floor("paced send trials (data chunks of 4 lengths)", report.get("paced_send_trials") >= 4 * trials as u64, report.get("paced_send_trials")),
-        floor("paced receive trials (2 in-progress states x own/foreign)", report.get("paced_recv_trials") >= 4 * trials as u64, report.get("paced_recv_trials")),
+        floor("paced receive trials (8 request kinds x 2 in-progress states x own/foreign)", report.get("paced_recv_trials") >= 32 * trials as u64, report.get("paced_recv_trials")),
         floor("every unpaced cell measured", report.get("unpaced_send_cells") == n_send_unpaced, report.get("unpaced_send_cells")),
         floor("no measurement errors", !report.notes.keys().any(|k| k.starts_with("measure_error/")), "see notes"),
     ];
     Outcome {
         report,
         level: "exploration",
-        rule: "one cell per message kind (data chunks of 0/1/16/255 bytes, every other kind, all 6 operations) and per reply kind (13 states x own/foreign address, 6 acks, unknown and data frames); paced cells: a lower bound asserted on EVERY trial; unpaced cells: the minimum over up to 75 trials must stay below 30 ms; distinct = cells (paced and unpaced legs counted separately)".into(),
+        rule: "one cell per message kind (data chunks of 0/1/16/255 bytes, every other kind, all 6 operations) and per (request kind that gets a reply: hello, query, 6 operation requests) x (reply kind: 13 states x own/foreign address, 6 acks, unknown and data frames); paced cells: a lower bound asserted on EVERY trial; unpaced cells: the minimum over up to 75 trials must stay below 30 ms; distinct = cells (paced and unpaced legs counted separately)".into(),
         exhaustive: false,
         floors,
         assumptions: vec![
